@@ -120,9 +120,11 @@ def check_tpid(case, stats=None):
         elif case.get("strings"):
             routes_m.append(("string", lib("tp:mass", "assemble(%r, (kv,), geo=identity)" % MASS_STR, assemble.assemble,
                                            MASS_STR, kvs, geo=geo), False))
+        done = set()
         for route, A, exact_sym in routes_m:
             cmp("mass via %s, axes=%s" % (route, axes), A, refM, probs, "tp:mass:" + route, stats=stats)
-            if route in ("kron", "generic", "vform"):
+            if route in ("kron", "generic") and (route, exact_sym) not in done and A is not None:
+                done.add((route, exact_sym))
                 _consequences("tp:mass:" + route, "mass via " + route, A, probs, stats, measure=vol, exact_sym=exact_sym)
         if stiff:
             routes_k.append(("kron", lib("tp:stiffness", "stiffness(kvs)", assemble.stiffness, arg), False))
@@ -140,9 +142,11 @@ def check_tpid(case, stats=None):
             if case.get("strings"):
                 routes_k.append(("string", lib("tp:stiffness", "assemble(%r, kvs, geo=identity)" % STIFF_STR, assemble.assemble,
                                                STIFF_STR, kvs, geo=geo), False))
+            done = set()
             for route, A, exact_sym in routes_k:
                 cmp("stiffness via %s, axes=%s" % (route, axes), A, refK, probs, "tp:stiffness:" + route, stats=stats)
-                if route in ("kron", "generic", "vform"):
+                if route in ("kron", "generic") and (route, exact_sym) not in done and A is not None:
+                    done.add((route, exact_sym))
                     _consequences("tp:stiffness:" + route, "stiffness via " + route, A, probs, stats, stiffness=True, exact_sym=exact_sym)
             # div-div form (predefined vector-valued form): block (i, j) = int d_{x_i} v  d_{x_j} u
             if d > 1 and case.get("divdiv"):
